@@ -26,6 +26,7 @@ CONSTANTS
   StopChan = "once"
   MaxU = 1
   ExhaustionReturnsLast = FALSE
+  ReturnedIdReleased = FALSE
   WithLapse = FALSE
   Emit = FALSE
 INIT Init
